@@ -48,6 +48,7 @@ type socket struct {
 	sendQLen   int
 	recvExpire time.Duration
 	recvq      chan *protocol.Message
+	sizeq      chan struct{}
 	ttl        int
 	sync.Mutex
 }
@@ -96,15 +97,22 @@ func (s *socket) RecvMsg() (*protocol.Message, error) {
 	if s.recvExpire > 0 {
 		tq = time.After(s.recvExpire)
 	}
-	recvq := s.recvq
 	s.Unlock()
-	select {
-	case <-s.closeq:
-		return nil, protocol.ErrClosed
-	case <-tq:
-		return nil, protocol.ErrRecvTimeout
-	case m := <-recvq:
-		return m, nil
+	for {
+		s.Lock()
+		recvq := s.recvq
+		sizeq := s.sizeq
+		s.Unlock()
+		select {
+		case <-s.closeq:
+			return nil, protocol.ErrClosed
+		case <-tq:
+			return nil, protocol.ErrRecvTimeout
+		case m := <-recvq:
+			return m, nil
+		case <-sizeq:
+			// the receive queue was replaced
+		}
 	}
 }
 
@@ -141,11 +149,15 @@ func (s *socket) SetOption(name string, value interface{}) error {
 	case protocol.OptionReadQLen:
 		if v, ok := value.(int); ok && v >= 0 {
 			newchan := make(chan *protocol.Message, v)
+			sizeq := make(chan struct{})
 			s.Lock()
 			s.recvQLen = v
 			s.recvq = newchan
+			sizeq, s.sizeq = s.sizeq, sizeq
 			s.Unlock()
-
+			// Wake whoever waits on the old queue: a blocked receive,
+			// and pipe receivers holding a message for it.
+			close(sizeq)
 			return nil
 		}
 		return protocol.ErrBadValue
@@ -293,11 +305,15 @@ outer:
 			}
 		}
 		recvq := s.recvq
+		sizeq := s.sizeq
 		s.Unlock()
 		m.Free()
 
 		select {
 		case recvq <- userm:
+		case <-sizeq:
+			// discarded along with the old queue's contents
+			userm.Free()
 		case <-p.closeq:
 			userm.Free()
 			break outer
@@ -319,6 +335,7 @@ func NewProtocol() protocol.Protocol {
 		pipes:    make(map[uint32]*pipe),
 		closeq:   make(chan struct{}),
 		recvq:    make(chan *protocol.Message, defaultQLen),
+		sizeq:    make(chan struct{}),
 		sendQLen: defaultQLen,
 		recvQLen: defaultQLen,
 		ttl:      8,
